@@ -526,7 +526,11 @@ else:
             "the substitution descends into nested function definitions (their "
             "parameters are a different name space)")
     sub_init = m.func(T + "PlaceholderSubstitutor.__init__")
-    c.check(has(sub_init, "super().__init__()"), "R12-INLINE", "PlaceholderSubstitutor.__init__",
+    sup = [x for x in ast.walk(sub_init) if isinstance(x, ast.Call)
+           and ast.unparse(x.func) == "super().__init__"]
+    c.check(len(sup) == 1 and not sup[0].args and not any(
+        k.arg in ("_cache", "_function_cache") or k.arg is None for k in sup[0].keywords),
+            "R12-INLINE", "PlaceholderSubstitutor.__init__",
             "fresh-cache-per-call-site", m.loc(m.module_of(sub_init), sub_init),
             "the substitutor of a call site does not start with its own empty cache: the "
             "substituted body of one call site is reused for another call of the same "
@@ -553,9 +557,48 @@ else:
             "the inlined graph is not de-duplicated")
 
 
+def r_substitutor_duplicates(c):
+    """a mapper that REPLACES placeholders by arrays from elsewhere can return an
+    array equal to (but not identical with) the placeholder it was given -- a caller
+    placeholder named like the parameter placeholder.  The 'mapper-created
+    duplicate' check of TransformMapper treats that as an error, so such a mapper
+    has to switch the check off"""
+    m = c.model
+    TM = "pytato.transform.TransformMapper"
+    n = 0
+    for q in m.subclasses(TM, strict=True):
+        ci = m.classes[q]
+        mp = ci.methods.get("map_placeholder")
+        if mp is None:
+            continue
+        ep = mp.args.args[1].arg
+        rets = [r.value for r in ast.walk(mp) if isinstance(r, ast.Return) and r.value is not None]
+        foreign = [r for r in rets if isinstance(r, ast.Subscript)
+                   and ast.unparse(r.value).startswith("self.")
+                   and any(isinstance(x, ast.Attribute) and isinstance(x.value, ast.Name)
+                           and x.value.id == ep for x in ast.walk(r.slice))]
+        if not foreign:
+            continue
+        n += 1
+        init = ci.methods.get("__init__")
+        ok = init is not None and any(
+            isinstance(x, ast.Call) and ast.unparse(x.func) == "super().__init__"
+            and any(k.arg == "err_on_created_duplicate" and ast.unparse(k.value) == "False"
+                    for k in x.keywords) for x in ast.walk(init))
+        c.check(ok, "R12-INLINE", f"{short(q)}.__init__", "replacement-is-not-a-created-duplicate",
+                m.loc(ci.module, init if init is not None else ci.node),
+                f"{short(q)}.map_placeholder returns `{m.frag(foreign[0], 40)}` (an array from "
+                "elsewhere) but the mapper keeps the created-duplicate check on: inlining a "
+                "call whose argument is a placeholder equal to the parameter placeholder "
+                "(same name, shape, dtype) raises ValueError instead of giving a call-free "
+                "graph")
+    if n < 1:
+        raise AnalysisError("anchor vanished: placeholder-substituting mapper")
+
+
 SPEC = Spec(
     prop="C12",
-    rules=[r_names, r_call_check, r_namespace, r_return, r_inline],
+    rules=[r_names, r_call_check, r_namespace, r_return, r_inline, r_substitutor_duplicates],
     floors={"R12-NAMES": 10, "R12-CALL-CHECK": 5, "R12-NAMESPACE": 10, "R12-RETURN": 6,
             "R12-INLINE": 7},
     explanation=(
